@@ -104,4 +104,44 @@ theorem creators_decide_by_signer_key :
 theorem default_sm2_mismatch_before_repair :
     (Covered.digest "SM3") ≠ verified .sm2 (parsedAlgo "oidSignatureSM2WithSM3" "") := by decide
 
+/-- which rows of the regenerated `signatureAlgorithmDetails` table belong to a signer key family (the property's
+    "belongs to the signer's key family"): decided from the table's key-algorithm column and, inside the shared
+    "ECDSA" column, from the algorithm's name - NOT from the hand-written list `inFamily` -/
+def belongs (f : Family) (row : String × String × String × String) : Bool :=
+  match f with
+  | .rsa => row.2.2.1 == "RSA"
+  | .sm2 => row.2.2.1 == "ECDSA" && row.1.startsWith "SM2"
+  | _ => row.2.2.1 == "ECDSA" && row.1.startsWith "ECDSA"
+
+/-- `accepted_in_family_consistent` (round 12; false of the code as found, see `md5_accepted_unverifiable_before_repair`):
+    quantified over EVERY row of the regenerated algorithm table, not over a hand-written list - whenever
+    `signingParamsForPublicKey` accepts an algorithm of the signer's key family, what the creator signs is what
+    `checkSignature` verifies for the emitted identifier; in particular the verifier does not refuse the algorithm
+    (`MD5WithRSA` with an RSA key was accepted by the three creators and refused as insecure by `checkSignature`, so
+    the package issued objects it could never verify). -/
+theorem accepted_in_family_consistent :
+    ∀ c ∈ creators, ∀ f ∈ families, ∀ row ∈ details, belongs f row = true → accepts f row.1 = true →
+      consistent c f row.1 = true := by decide +kernel
+
+/-- the hand-written list `inFamily` the older theorems quantify over is exactly the set of accepted algorithms of
+    the family in the regenerated table (so those theorems miss no accepted algorithm) -/
+theorem inFamily_complete :
+    ∀ f ∈ families, ∀ row ∈ details, belongs f row = true → accepts f row.1 = true → row.1 ∈ inFamily f := by decide +kernel
+
+/-- whatever the creator accepts - in the family or not - is an algorithm the verifier does not refuse as insecure -/
+theorem accepted_not_insecure :
+    ∀ f ∈ families, ∀ row ∈ details, accepts f row.1 = true →
+      (verifyHash.find? (·.1 == row.1)).map (·.2) ≠ some "reject" := by decide
+
+/-- the creator refuses exactly what it must: every algorithm `checkSignature` rejects as insecure is refused at
+    creation for every key family (regenerated lists `creatorRefuses`, `verifyHash`, `details`) -/
+theorem insecure_refused_at_creation :
+    ∀ v ∈ verifyHash, v.2 = "reject" → ∀ f ∈ families, accepts f v.1 = false := by decide
+
+/-- cur (code as found in round 12): without the by-name refusal, MD5WithRSA with an RSA key resolves to a
+    usable (oid, hash) pair although the verifier rejects the algorithm -/
+theorem md5_accepted_unverifiable_before_repair :
+    (details.find? (·.1 == "MD5WithRSA")).map (fun r => (r.2.2.1, r.2.2.2)) = some ("RSA", "MD5") ∧
+    verified .rsa "MD5WithRSA" = .rejected := by decide
+
 end Props.C09
